@@ -36,8 +36,57 @@ REPO = os.environ.get('VERIF_REPO', '/repo')
 
 # R-conv: std conversion traits cannot be shadowed inside a Verus file (vstd attaches
 # trait-level contracts to them); the extracted text is renamed to same-shaped shim traits.
+def rewrite_closures(text):
+    """R-closurepat: `|(a, _)| EXPR` / `|_, v| EXPR` as a call argument: Verus takes only plain variables as closure
+    parameters; a tuple pattern becomes a variable destructured by a `let` in front of the (single-expression) body, `_`
+    becomes a fresh name.  Closures with a block body or plain parameters are left alone."""
+    out = []
+    i = 0
+    n = 0
+    while True:
+        m = re.compile(r'(?<=[(,])\s*\|([^|\n]*)\|\s*(?=[^\s{|])').search(text, i)
+        if not m:
+            break
+        params = m.group(1)
+        ps = Unit._split_top(params, params)
+        if not any(p_ == '_' or p_.startswith('(') or p_.startswith('&(') for p_ in ps):
+            out.append(text[i:m.end()])
+            i = m.end()
+            continue
+        # body: up to the unmatched `)` or a top-level `,`
+        j = m.end()
+        d = 0
+        while j < len(text):
+            c = text[j]
+            if c in '([{':
+                d += 1
+            elif c in ')]}':
+                if d == 0:
+                    break
+                d -= 1
+            elif c == ',' and d == 0:
+                break
+            j += 1
+        body = text[m.end():j].strip()
+        names, lets = [], []
+        for k, p_ in enumerate(ps):
+            if p_ == '_':
+                names.append('_vx_c%d' % k)
+            elif p_.startswith('(') or p_.startswith('&('):
+                names.append('vx_c%d' % k)
+                lets.append('let %s = vx_c%d;' % (p_, k))
+            else:
+                names.append(p_)
+        out.append(text[i:m.start()] + ' |%s| { %s %s }' % (', '.join(names), ' '.join(lets), body))
+        i = j
+        n += 1
+    out.append(text[i:])
+    return ''.join(out), n
+
+
 RULES = {
     'autofor': [],
+    'closurepat': [],      # handled by rewrite_closures()
     # R-strslice: slicing a string VARIABLE by a range is the call of a shim whose precondition is std's panic condition
     'strslice': [
         (r'&(\w+)\[([^\[\]]+?)\.\.([^\[\].][^\[\]]*?)\]', r'\1.vx_slice(\2, \3)'),
@@ -131,6 +180,10 @@ class Unit:
             self.lines.append(Line(l, ('repo', s.path, ln + i), fn))
 
     def apply_rules(self, text, where):
+        if 'closurepat' in self.rules:
+            text, n_ = rewrite_closures(text)
+            if n_:
+                self.rewrites.append(('R-closurepat pattern / `_` closure parameters made variables', where, n_))
         for r in self.rules:
             for pat, rep in RULES[r]:
                 text, n = re.subn(pat, rep, text)
